@@ -60,6 +60,9 @@ LoadPolicy(eph, p) ==
 RECURSIVE LoadAll(_, _)
 LoadAll(eph, ps) == IF ps = <<>> THEN eph ELSE LoadAll(LoadPolicy(eph, Head(ps)), Tail(ps))
 Load(eph, upd) == LoadAll(eph, upd.policies)
+(* load action: merge (and replace without replace= tags) merges; override / update make the loaded   *)
+(* configuration the whole configuration of the instance                                           *)
+LoadAct(eph, upd, action) == IF action \in {"override", "update"} THEN Load(<<>>, upd) ELSE Load(eph, upd)
 
 Names(eph) == {eph[k].name : k \in 1..Len(eph)}
 Get(eph, n) == eph[Index(eph, LAMBDA x : x.name = n)]
